@@ -17,7 +17,7 @@ for sid in sorted(os.listdir('/verif/seeded')):
     lines, rc = [], None
     if applied:
         subprocess.run(['git', '-C', '/repo', 'reset', '-q'])
-        p = subprocess.run(['./check', prop], cwd='/verif', capture_output=True, text=True)
+        p = subprocess.run(['./check', prop], cwd='/verif', capture_output=True, text=True, env=dict(os.environ, VERIF_EVIDENCE_DIR='/tmp/verif-seed-evidence'))
         lines = [l for l in p.stdout.split('\n') if re.match(r'^(VIOLATION|OK|KNOWN-FINDING)', l)]
         rc = p.returncode
     subprocess.run(['git', '-C', '/repo', 'reset', '-q', '--hard', 'HEAD']); subprocess.run(['git', '-C', '/repo', 'clean', '-fdq'])
